@@ -7,6 +7,7 @@
    - src/plugins/export.rs        ExportPlugin::from_json (filter part), process_msg (selection part)
    No proofs in this file. *)
 From Coq Require Import List NArith Bool.
+From AdltV Require Import Base.Res Base.MachInt.
 Import ListNotations.
 Open Scope N_scope.
 
@@ -22,6 +23,15 @@ Definition kind_eqb (a b : kind) : bool :=
 Record flt := mkFlt { f_kind : kind; f_enabled : bool; f_id : N }.
 
 Definition is_empty {A} (l : list A) : bool := match l with [] => true | _ => false end.
+(* Iterator::position *)
+Fixpoint position {A} (p : A -> bool) (l : list A) : option nat :=
+  match l with
+  | [] => None
+  | a :: r => if p a then Some O else match position p r with Some k => Some (S k) | None => None end
+  end.
+(* Vec::remove(idx) *)
+Definition remove_at {A} (k : nat) (l : list A) : list A := firstn k l ++ skipn (S k) l.
+Definition memN (x : N) (l : list N) : bool := existsb (N.eqb x) l.
 
 (* FilterKindContainer<Vec<Filter>>: one vector per kind *)
 Record container := mkC { c_pos : list flt; c_neg : list flt; c_marker : list flt; c_event : list flt }.
@@ -105,14 +115,14 @@ Section Sets.
     | [] => []
     | m :: r => if match_filters c m then idx :: matching_idxs c r (idx + 1) else matching_idxs c r (idx + 1)
     end.
-  Definition process_stream_new (c : container) (last_processed : N) (offset : N) (msgs : list M) (max_chunk : nat)
+  Definition process_stream_new (c : container) (last_processed : N) (offset : N) (msgs : list M) (max_chunk : N)
     : list N * N :=
     match msgs with
     | [] => ([], last_processed)
     | _ =>
       if filters_active c then
-        let max_idx := Nat.min (length msgs) max_chunk in
-        (matching_idxs c (firstn max_idx msgs) offset, offset + N.of_nat max_idx)
+        let max_idx := N.min (N.of_nat (length msgs)) max_chunk in   (* std::cmp::min(new_msgs_len, max_chunk_size) *)
+        (matching_idxs c (firstn (N.to_nat max_idx) msgs) offset, offset + max_idx)
       else ([], last_processed + N.of_nat (length msgs))
     end.
 
@@ -164,4 +174,51 @@ Section Sets.
 
   (* a filter that can influence selection at all *)
   Definition relevant (f : flt) : bool := f_enabled f && negb (kind_eqb (f_kind f) Marker).
+
+  (* ------------------------------------------------------------ export plugin with `lifecyclesToKeep` *)
+  (* The part of process_msg in front of the selection.  Outside the model (arguments): *)
+  Variable lc_of : M -> N.              (* msg.lifecycle *)
+  Variable known : M -> bool.           (* lcs_r.get_one(&msg.lifecycle) is Some *)
+  Variable keeps : N -> M -> bool.      (* keep_lifecycle(entry, &msg.ecu, &lc); a configured LifecycleInfo entry is named by a number *)
+  Variable lc_filter : list N -> flt.   (* Filter::from_json({"type":1,"not":true,"lifecycles":l}) *)
+
+  (* filters, lifecycles_to_keep, checked_lc_ids (a set), lifecycles_exported *)
+  Record xstate := mkX { x_c : container; x_to_keep : list N; x_checked : list N; x_exported : list N }.
+
+  Definition export_dyn_init (fs : list flt) (to_keep : list N) : xstate :=
+    mkX (export_build fs (if is_empty to_keep then None else Some (lc_filter [u32max]))) to_keep [] [].
+
+  (* [has_handle]: set_lifecycle_read_handle was called.  `panic!("unknown lifecycle ...")` = Panic 1 *)
+  Definition export_lc_step (has_handle : bool) (s : xstate) (m : M) : res xstate :=
+    if negb (is_empty (x_to_keep s)) then
+      if negb (memN (lc_of m) (x_checked s)) then
+        if has_handle then
+          if known m then
+            let s1 :=
+              match position (fun e => keeps e m) (x_to_keep s) with
+              | Some idx =>
+                  let ex := x_exported s ++ [lc_of m] in
+                  mkX (export_replace_lc (x_c s) (lc_filter ex)) (remove_at idx (x_to_keep s)) (x_checked s) ex
+              | None => s
+              end in
+            Ok (mkX (x_c s1) (x_to_keep s1) (lc_of m :: x_checked s1) (x_exported s1))
+          else Panic 1
+        else Ok s
+      else Ok s
+    else Ok s.
+
+  Fixpoint export_dyn_loop (has_handle : bool) (s : xstate) (t_from t_to : option N) (msgs : list M)
+           (out_rev : list M) (nexp nproc : N) : res (list M * N * N * xstate) :=
+    match msgs with
+    | [] => Ok (rev out_rev, nexp, nproc, s)
+    | m :: r =>
+        match export_lc_step has_handle s m with
+        | Ok s' =>
+            if export_keep (x_c s') t_from t_to m
+            then export_dyn_loop has_handle s' t_from t_to r (m :: out_rev) (nexp + 1) (nproc + 1)
+            else export_dyn_loop has_handle s' t_from t_to r out_rev nexp (nproc + 1)
+        | Panic p => Panic p
+        | OutOfFuel => OutOfFuel
+        end
+    end.
 End Sets.
